@@ -82,8 +82,11 @@ CLAIMED = {
                      "columns, declared length and rows (short, long, ill-typed at any cell, too few rows) a failure drops exactly the "
                      "values it created and a success none -- with the two repairs of finding F9 (fixed by /repo 6ba6288: the recursion "
                      "pops what it pushed when the rest of the row fails; the caller is told when a row was stored completely) read "
-                     "off the source (fact_de_row_*) and each shown necessary. PARTIAL: token-level malformation other than an ill-typed "
-                     "value is left to serde; no undefined behaviour is *proved* absent at the raw-parts level (see C05/C17).",
+                     "off the source (fact_de_row_*) and each shown necessary. Token-level malformation: the unmutated serialization of a "
+                     "reachable world with tokens duplicated, deleted, swapped or altered (any token, the k-th numeric one, the k-th "
+                     "structural one) must be rejected without leaking or double-dropping a value, or accepted as a world the "
+                     "content-level model accepts too (finding F14, a column leaked by the compact encoding on a trailing element, "
+                     "repaired by /repo 95a4fbd). PARTIAL: the token grammar itself is serde's and is not modelled; no undefined behaviour is *proved* absent at the raw-parts level (see C05/C17).",
                 technique="Rocq proof that every accepted content yields an Inv world (all inputs) + content-mutation differential execution against the real deserializer with drop audit",
                 ref="DESIGN.md §7 C11"),
     "C03": dict(engine="world-histories",
@@ -103,7 +106,14 @@ CLAIMED = {
                      "j-th requested resource at position j; frame: no entity operation changes the resources, clone copies, "
                      "clone_from replaces, the serde round trip preserves. The harness holds four resource types of different "
                      "layouts, reads them after every operation through get and through 28 view_resources subsets/orders/"
-                     "mutabilities, writes through get_mut and through single and two-resource mutable views.",
+                     "mutabilities, writes through get_mut and through single and two-resource mutable views. Which orders "
+                     "type-check is modelled too (coq/Model/ResOrder.v: the Expanded walk with its Reshape witnesses, whose form "
+                     "is read off the source on every run): every duplicate-free request of resources of the list is accepted in "
+                     "whatever order, nothing else is, and with the witness tied to the tail's (the code before the repair of "
+                     "finding F15, /repo 9c5bedd) rotations are rejected (refutation kept). 87 generated programs (every ordered "
+                     "sub-list of four resources and the orders of three, through view_resources; rotations and reversals through "
+                     "query and System resource views) must type-check -- rustc's verdict per program is compared with the model -- "
+                     "and, run, must return the requested resource at each position.",
                 technique="Rocq proof of positional get/view/reshape lemmas and the frame over all histories + differential execution with permuted resource views",
                 ref="DESIGN.md §7 C15"),
     "C18": dict(engine="constructors", note="CTOR_NOTE",
